@@ -698,9 +698,9 @@ Proof.
   { unfold glen. change (mk jpeg_format b) with (jmk b). change (seg jpeg_format) with jseg. rewrite (jsum_enc _ (jmk_has_length b)). reflexivity. }
   eexists. split.
   - rewrite Eoff, Elen. reflexivity.
-  - rewrite Nat2N.inj_add, Eoff, Elen. apply Forall_app. split.
-    + eapply Forall_impl; [|apply jregs_within]. cbn beta. intros r [_ H]. left. lia.
-    + eapply Forall_impl; [|apply jregs_within]. cbn beta. intros r [H _]. right. lia.
+  - apply Forall_app. split.
+    + eapply Forall_impl; [|apply jregs_within]. cbn beta. intros r [_ H]. left. rewrite Eoff. change (seg jpeg_format) with jseg in *. lia.
+    + eapply Forall_impl; [|apply jregs_within]. cbn beta. intros r [H _]. right. rewrite Nat2N.inj_add, Elen. rewrite Nat2N.inj_add in Eoff. change (seg jpeg_format) with jseg in *. lia.
 Qed.
 
 (* F-JPEG-NOLEN on the model: a TEM marker in front of the manifest; the handler reports offset 24
